@@ -240,12 +240,18 @@ async fn shutdown_case(certs: &Path, log: &EvLog, run: u64, case: &Value) -> Res
         return Err(anyhow!("kill -INT failed"));
     }
     let done = server.listen_done.take().unwrap();
-    let limit = if stalled { Duration::from_secs(4) } else { Duration::from_secs(30) };
+    // (once shutdown has hung a few times although nobody was stalling, the verdicts come sooner)
+    let limit = if stalled { Duration::from_secs(4) } else if HUNG.load(Ordering::SeqCst) >= 3 { Duration::from_secs(6) } else { Duration::from_secs(30) };
     let r = tokio::task::spawn_blocking(move || done.recv_timeout(limit)).await?;
     match r {
         Ok(Ok(())) => log.emit("listen_returned", json!({"ms": t0.elapsed().as_millis() as u64, "res": "ok"})),
         Ok(Err(e)) => log.emit("listen_returned", json!({"ms": t0.elapsed().as_millis() as u64, "res": format!("err: {e}")})),
-        Err(_) => log.emit("listen_hung", json!({"after_ms": t0.elapsed().as_millis() as u64, "stalled": stalled})),
+        Err(_) => {
+            if !stalled {
+                HUNG.fetch_add(1, Ordering::SeqCst);
+            }
+            log.emit("listen_hung", json!({"after_ms": t0.elapsed().as_millis() as u64, "stalled": stalled}))
+        }
     }
     stop.store(true, Ordering::SeqCst);
     for t in late_tasks {
@@ -291,6 +297,8 @@ async fn shutdown_case(certs: &Path, log: &EvLog, run: u64, case: &Value) -> Res
     server.stop();
     Ok(())
 }
+
+static HUNG: std::sync::atomic::AtomicUsize = std::sync::atomic::AtomicUsize::new(0);
 
 pub async fn cmd_shutdown(args: Vec<String>) -> Result<()> {
     let out = arg(&args, "--out").ok_or(anyhow!("--out"))?;
